@@ -45,7 +45,8 @@ theorem tablesOK_step (r r' : Registry) (s : Stmt) (h : TablesOK r)
   · exact ⟨⟨r.mods.length, s⟩, by rw [hmods]; simp, h1.symm, h2.symm⟩
 
 theorem tablesOK_add {r r' : Registry} {s : Stmt} (h : TablesOK r) (ha : r.add s = .ok r') : TablesOK r' := by
-  unfold Registry.add at ha
+  have ha := (Registry.add_ok ha).2
+  unfold Registry.addChecked at ha
   simp only at ha
   -- facts about tables built from `r.kmOf sub` by binding the new sequence number
   have hb1 : ∀ (km : KeyMap) (k : String) sub', (∀ kv ∈ km, kv ∈ r.kmOf sub' ∨ kv.2 = r.mods.length) →
@@ -142,7 +143,8 @@ theorem loadFrom_src : ∀ (ss : List Stmt) (r : Registry) (m : Mod), m ∈ (r.l
       rw [ha] at h
       rcases loadFrom_src rest r' m h with h1 | h1
       · have hmods : r'.mods = r.mods ++ [⟨r.mods.length, s⟩] := by
-          unfold Registry.add at ha
+          have ha := (Registry.add_ok ha).2
+          unfold Registry.addChecked at ha
           simp only at ha
           split at ha
           · split at ha
